@@ -32,6 +32,8 @@ type Prog struct {
 	ModFuncs []*ssa.Function        // functions whose origin lives in the formula package (instances included)
 
 	Files []string // compiled go files of the root package
+
+	Alias map[string]string // historical unexported name -> the name in this tree (names.go)
 }
 
 func loadEnv() []string {
@@ -130,6 +132,7 @@ func Load(repoDir string, overlay map[string][]byte, goarch string, needSSA bool
 		}
 	}
 	sort.Slice(p.ModFuncs, func(i, j int) bool { return p.FuncKey(p.ModFuncs[i]) < p.FuncKey(p.ModFuncs[j]) })
+	p.discoverNames()
 	return p, nil
 }
 
@@ -208,11 +211,12 @@ func (p *Prog) InstrPos(in ssa.Instruction) string {
 
 // Func returns the package-level function with the given name, or nil.
 func (p *Prog) Func(name string) *ssa.Function {
-	return p.Pkg.Func(name)
+	return p.Pkg.Func(p.alias(name))
 }
 
 // Method returns method `name` on named type `typ` (pointer or value receiver).
 func (p *Prog) Method(typ, name string) *ssa.Function {
+	typ, name = p.alias(typ), p.alias(name)
 	obj := p.Types.Scope().Lookup(typ)
 	if obj == nil {
 		return nil
@@ -258,7 +262,7 @@ func (p *Prog) NamedType(name string) *types.Named {
 
 // Global returns the ssa.Global for a package-level variable.
 func (p *Prog) Global(name string) *ssa.Global {
-	g, _ := p.Pkg.Members[name].(*ssa.Global)
+	g, _ := p.Pkg.Members[p.alias(name)].(*ssa.Global)
 	return g
 }
 
